@@ -60,7 +60,7 @@ pub fn configs(tier: Tier) -> Vec<Box<dyn Config>> {
     let q = tier == Tier::Quick;
     let mut v = Vec::new();
     if sse2 {
-        v.push(tab(Plan::Zero, if q { 6 } else { 9 }, if q { 9 } else { 12 }, vec![], true, tier, ""));
+        v.push(tab(Plan::Zero, if q { 6 } else { 8 }, if q { 9 } else { 11 }, vec![], true, tier, ""));
         v.push(tab(Plan::Seq, if q { 3 } else { 4 }, if q { 4 } else { 6 }, vec![], true, tier, ""));
         v.push(tab(Plan::Adv(0), 4, 5, vec![], true, tier, ""));
     } else {
